@@ -37,6 +37,8 @@ def probe():
     global _PROBE
     if _PROBE is None:
         forms = [f'={f}(A1,{n})' for _, f in FUNS for n in NS] + ['=A1%'] + [f'={f}(A1,B1)' for _, f in FUNS]
+        # 34..37: the digit count left out (no second argument / an empty one): zero digits
+        forms += ['=ROUNDUP(A1)', '=ROUNDUP(A1,)', '=ROUNDDOWN(A1)', '=ROUNDDOWN(A1,)']
         # B1 (the digit count of the last three formulas) holds a whole number in the workbook; the runs override it
         _PROBE = repo.Probe(forms, {(1, 0): 2})
     return _PROBE
@@ -80,6 +82,11 @@ def _job_ovr(recs):
             got = dec(*res[30])
             if got != tuple(rec['P']):
                 bad.append(('PCT', 0, tuple(rec['P']), show(*res[30])))
+            z = NS.index(0)
+            for (key, f), r in zip((('U', 'ROUNDUP, no digit count'), ('U', 'ROUNDUP, empty digit count'), ('D', 'ROUNDDOWN, no digit count'), ('D', 'ROUNDDOWN, empty digit count')),
+                                   p.eval([(0, 0, 0, pyval(rec['m'], rec['s']))], idxs=range(34, 38))):
+                if dec(*r) != tuple(rec[key][z]):
+                    bad.append((f, 0, tuple(rec[key][z]), show(*r)))
             out.append(bad)
         return out
     except Exception as e:
